@@ -95,6 +95,10 @@ func (db *DB) compact(sourceSeg *segment) (CompactionResult, error) {
 
 	db.mu.Lock()
 	defer db.mu.Unlock()
+	// Make the copied records durable before the source segment is removed.
+	if err := db.datalog.sync(); err != nil {
+		return cr, err
+	}
 	err = db.datalog.removeSegment(sourceSeg)
 	return cr, err
 }
